@@ -912,6 +912,54 @@ func main() {
 			// an unframed raw block that happens to start with the xerial magic cannot be told apart: not generated
 			emit(fmt.Sprintf("xr %d %s %s", fr, csv(ulens), csv(asked)), impl)
 		}
+		// --- xrcut: framed reference streams that END EARLY (the source has only the first bytes): after m complete blocks
+		// the cut falls on the frame boundary (kind 0), inside the 4-byte length (kind 1..3 = bytes of it present), right
+		// after it (kind 4) or inside the block (kind 5); the Read return values must be the model's and the data a prefix
+		// of the payload
+		for i := 0; i < 24; i++ {
+			nb := 1 + r.Intn(4)
+			var frames [][]byte
+			var ulens []int
+			var whole []byte
+			for j := 0; j < nb; j++ {
+				n := []int{1, 7, 100, 5000, 32768, 40000}[r.Intn(6)]
+				p := payload(r, r.Intn(3), n)
+				blk := refsnappy.Encode(nil, p)
+				var l [4]byte
+				binary.BigEndian.PutUint32(l[:], uint32(len(blk)))
+				frames = append(frames, append(l[:], blk...))
+				ulens = append(ulens, n)
+				whole = append(whole, p...)
+			}
+			m := r.Intn(nb)
+			kind := r.Intn(6)
+			stream := []byte{0x82, 'S', 'N', 'A', 'P', 'P', 'Y', 0, 0, 0, 0, 1, 0, 0, 0, 1}
+			for j := 0; j < m; j++ {
+				stream = append(stream, frames[j]...)
+			}
+			switch {
+			case kind >= 1 && kind <= 3:
+				stream = append(stream, frames[m][:kind]...)
+			case kind == 4: // the length field and not one byte of the block
+				stream = append(stream, frames[m][:4]...)
+			case kind == 5: // the length field and a strict, non-empty part of the block
+				stream = append(stream, frames[m][:5+r.Intn(len(frames[m])-5)]...)
+			}
+			next := readSizes(r)
+			var asked []int
+			dst := func() int { n := next(); asked = append(asked, n); return n }
+			impl := guard(func() string {
+				got, ns, err := decompressChunks(&snappy.Codec{}, stream, func() int { return 1 + r.Intn(5000) }, dst)
+				if !bytes.HasPrefix(whole, got) {
+					return "wrong-data"
+				}
+				if err != nil {
+					ns = append(ns, 0) // the model's marker of an error: a second 0
+				}
+				return csv(ns)
+			})
+			emit(fmt.Sprintf("xrcut %s %d %d %s", csv(ulens), m, kind, csv(asked)), impl)
+		}
 		// --- rt / out / in
 		for _, cc := range cs {
 			for _, n := range sizes {
@@ -970,8 +1018,10 @@ func main() {
 					src.failAt = k
 					got, _, err := decompressFrom(cc.codec, src, readSizes(r))
 					switch {
+					case err != nil && bytes.HasPrefix(p, got):
+						return "sound" // what was handed out before the error is a prefix of the payload (Props/C16 truncated_stream_prefix)
 					case err != nil:
-						return "sound"
+						return "unsound:wrong-data-before-the-error-" + sum(got)
 					case bytes.Equal(got, p):
 						return "sound"
 					}
